@@ -39,10 +39,17 @@ type c13World struct {
 	lastSeq  int
 	dials    int
 	attempts int
+	sig      chan bool // one token per callback (when the harness waits for session events)
 }
 
 func (w *c13World) callback(kind string) {
 	w.h.Assert(!w.removed, "C13: once Remove returns no further callback for that target is made")
+	if w.sig != nil {
+		select {
+		case w.sig <- true:
+		default:
+		}
+	}
 }
 
 func (s *c13Stream) Send(*gpb.SubscribeRequest) error { return nil }
@@ -121,6 +128,7 @@ func c13Manager(h *zz.H, w *c13World, recvTimeout time.Duration) *Manager {
 			w.connected = false
 			w.cur = nil
 		},
+		ConnectError:      func(string, error) { w.callback("connectError") },
 		ConnectionManager: c13CM{w},
 		ReceiveTimeout:    recvTimeout,
 	})
@@ -194,4 +202,37 @@ func VerifC13_Retry(h *zz.H) {
 		h.Fail("C13: a failed session is not retried although the retry timer may still fire")
 	}
 	h.Assert(w.attempts+w.dials >= 1 || h.EnvEvents() == 0, "C13: an attempt follows the retry timer")
+}
+
+// VerifC13_RemoveAfter: like Sessions, but Reconnect/Remove are issued after the harness has
+// observed k callbacks (k = 0..2) - so that, within a small preemption bound, they also land while
+// a session is connected and between two messages.
+func VerifC13_RemoveAfter(h *zz.H) {
+	w := &c13World{h: h, budget: h.Param("BUDGET", 2), sig: make(chan bool, 16)}
+	m := c13Manager(h, w, 0)
+	tgt := &tpb.Target{Addresses: []string{"addr"}}
+	h.Assert(m.Add("t", tgt, &gpb.SubscribeRequest{}) == nil, "C13: a new target is added")
+	k := h.Range("after_events", 0, h.Param("K", 2))
+	for i := 0; i < k; i++ {
+		<-w.sig
+	}
+	if h.Range("reconnect", 0, 1) == 1 {
+		m.Reconnect("t")
+	}
+	err := m.Remove("t")
+	w.removed = true
+	h.Assert(err == nil, "C13: a managed target is removed")
+	for _, s := range w.streams {
+		if s.ended {
+			h.Assert(s.resets == 1, "C13: every ended stream was followed by exactly one Reset before Remove returned")
+		}
+		if s.recvd >= 1 {
+			h.Assert(s.connects == 1, "C13: Connect is reported after the first message of a stream")
+		}
+		if s.connects == 1 {
+			h.Assert(s.resets == 1, "C13: every session that reported Connect is ended by exactly one Reset")
+		}
+	}
+	h.Assert(!w.connected, "C13: no session is left open by Remove")
+	h.Quiesce()
 }
